@@ -18,7 +18,7 @@ RULE = ("cases = (content, construction route [text, bytes+offset/length, iterab
         "cls(bin=content) under the same operation and mode. Non-trivial = route != plain text and the operation's result depends on the content; distinct = SHA-1.")
 ASSUMPTIONS = ["repr() of a file-backed object legitimately shows filename= and is not compared (C19 checks it)", "an empty file cannot be memory mapped (OS limitation): empty content is built from a non-empty file with length=0"]
 
-EXTRA_ROUTES = ['bitarray_little', 'bitarray_little_kw', 'frozenbitarray', 'memoryview', 'bytearray_offset', 'array_B', 'mul_then_slice', 'read_from_stream', 'cut_piece', 'unpack_bits',
+EXTRA_ROUTES = ['empty_plus_literal', 'literal_plus_empty', 'empty_plus_object', 'bitarray_little', 'bitarray_little_kw', 'frozenbitarray', 'memoryview', 'bytearray_offset', 'array_B', 'mul_then_slice', 'read_from_stream', 'cut_piece', 'unpack_bits',
                 'from_uint', 'pathlib_name']
 ALL_ROUTES = MEM_ROUTES + files.FILE_ROUTES + EXTRA_ROUTES
 POSITIONAL_ROUTES = {'slice_of_longer', 'mul_then_slice', 'read_from_stream', 'cut_piece', 'unpack_bits'}
@@ -33,6 +33,12 @@ def build_any(clsname, bits, route, salt, tmp):
         return files.build_file_route(clsname, bits, route, salt, tmp)
     if route in MEM_ROUTES:
         return build_route(clsname, bits, route, salt)
+    if route == 'empty_plus_literal':
+        return (c() + ('0b' + bits)) if n else c()
+    if route == 'literal_plus_empty':
+        return (('0b' + bits) + c()) if n else c()
+    if route == 'empty_plus_object':
+        return c() + bs.Bits('0b' + bits if n else '')
     if route == 'bitarray_little':
         return c(bitarray.bitarray(bits, endian='little'))
     if route == 'bitarray_little_kw':
@@ -250,9 +256,11 @@ def run(case):
         if not case['op'].startswith('mutate:') and case['op'] not in STREAM_OPS:
             require(obj.bin == content, 'a non-mutating operation changed the object built through the route', op=case['op'], route=case['route'])
         # a second object from the same source behaves the same (shared buffers / caches must not be consumed)
-        if case['route'] in ('cache_hit', 'auto_bin', 'fromstring'):
+        if case['route'] in ('cache_hit', 'auto_bin', 'fromstring', 'empty_plus_literal', 'literal_plus_empty', 'empty_plus_object', 'hex_or_bin', 'join', 'pack_bits'):
             again = build_any(case['cls'], content, case['route'], case['salt'], tmp)
             require(again.bin == content, 'building again from the same literal gives different bits', route=case['route'])
+            lit = bs.Bits('0b' + content) if content else bs.Bits()
+            require(lit.bin == content, 'after the operation the same literal string parses to different bits (shared storage was modified)', route=case['route'], op=case['op'])
         del obj
     content_dep = case['op'] not in ('len', 'bool', 'length_prop')
     return {'nt': case['route'] != 'bin' and content_dep and len(content) > 0, 'labels': [case['route'], case['op'].split(':')[0], 'lsb0' if case['lsb0'] else 'msb0', lenbucket(len(content))]}
